@@ -492,6 +492,15 @@ def rhythmEffectiveRatio (eps currDelta prevDelta : R) : R :=
   let windowPenalty := fmin (fmax (abs (prevDelta - currDelta) - eps) 0.0 / eps) 1.0
   windowPenalty * currRatio * fractionMultiplier
 
+/-- `effective_ratio *= (3.0 / count as f64).min((count as f64).recip().powf(power))` when the island was found
+in `island_counts` (and is not the default island); unchanged otherwise -/
+def applyIslandRepeat (effectiveRatio : R) (island : Island) (count : Option Nat) : R :=
+  match count with
+  | some count =>
+    let power := logistic (ofInt island.delta) 58.33 0.24 2.75
+    effectiveRatio * fmin (3.0 / ofNat count) (powf (1.0 / ofNat count) power)
+  | none => effectiveRatio
+
 /-- the `else` branch of `if (prev_delta - curr_delta).abs() < eps` while counting an island -/
 def rhythmIslandEnd (eps hitWindow : R) (st : RhState R) (currObj : DiffObj R) (effectiveRatio decay : R)
     (currDelta prevDelta lastDelta : R) : RhState R :=
@@ -505,18 +514,27 @@ def rhythmIslandEnd (eps hitWindow : R) (st : RhState R) (currObj : DiffObj R) (
   let effectiveRatio :=
     if st.prevIsland.deltaCount == st.island.deltaCount then effectiveRatio * 0.5 else effectiveRatio
   let upd := islandCountsUpdate eps st.counts st.island st.prevIsland
-  let effectiveRatio :=
-    match upd.2 with
-    | some count =>
-      let power := logistic (ofInt st.island.delta) 58.33 0.24 2.75
-      effectiveRatio * fmin (3.0 / ofNat count) (powf (1.0 / ofNat count) power)
-    | none => effectiveRatio
+  let effectiveRatio := applyIslandRepeat effectiveRatio st.island upd.2
   let doubletapness := getDoubletapness st.prevObj (some currObj) hitWindow
   let effectiveRatio := effectiveRatio * (1.0 - doubletapness * 0.75)
   let sum := st.sum + sqrt (effectiveRatio * st.startRatio) * decay
   { st with sum := sum, counts := upd.1, startRatio := effectiveRatio, prevIsland := st.island,
             firstDeltaSwitch := if lt (prevDelta + eps) currDelta then false else st.firstDeltaSwitch,
             island := Island.newWithDelta (truncI32 currDelta) }
+
+/-- the `if first_delta_switch { … } else if prev_delta > curr_delta + eps { … }` of one iteration -/
+def rhythmBranch (eps hitWindow : R) (st : RhState R) (currObj : DiffObj R) (effectiveRatio decay : R)
+    (currDelta prevDelta lastDelta : R) : RhState R :=
+  if st.firstDeltaSwitch then
+    if lt (abs (prevDelta - currDelta)) eps then
+      { st with island := st.island.addDelta (truncI32 currDelta) }
+    else rhythmIslandEnd eps hitWindow st currObj effectiveRatio decay currDelta prevDelta lastDelta
+  else if lt (currDelta + eps) prevDelta then
+    let effectiveRatio := if currObj.base.isSlider then effectiveRatio * 0.6 else effectiveRatio
+    let effectiveRatio := if st.prevObj.base.isSlider then effectiveRatio * 0.6 else effectiveRatio
+    { st with firstDeltaSwitch := true, startRatio := effectiveRatio,
+              island := Island.newWithDelta (truncI32 currDelta) }
+  else st
 
 /-- one iteration `i` of `for i in (1..=rhythm_start).rev()` once `curr.previous(i - 1)` returned `curr_obj`
 (before `last_obj = prev_obj; prev_obj = curr_obj`) -/
@@ -531,16 +549,7 @@ def rhythmStepWith (curr : DiffObj R) (hnc : Nat) (eps hitWindow : R) (st : RhSt
   let effectiveRatio := rhythmEffectiveRatio eps currDelta prevDelta
   let st : RhState R := { st with underflow := st.underflow || decide (hnc < i) }
   let st : RhState R :=
-    if st.firstDeltaSwitch then
-      if lt (abs (prevDelta - currDelta)) eps then
-        { st with island := st.island.addDelta (truncI32 currDelta) }
-      else rhythmIslandEnd eps hitWindow st currObj effectiveRatio currHistoricalDecay currDelta prevDelta lastDelta
-    else if lt (currDelta + eps) prevDelta then
-      let effectiveRatio := if currObj.base.isSlider then effectiveRatio * 0.6 else effectiveRatio
-      let effectiveRatio := if st.prevObj.base.isSlider then effectiveRatio * 0.6 else effectiveRatio
-      { st with firstDeltaSwitch := true, startRatio := effectiveRatio,
-                island := Island.newWithDelta (truncI32 currDelta) }
-    else st
+    rhythmBranch eps hitWindow st currObj effectiveRatio currHistoricalDecay currDelta prevDelta lastDelta
   { st with lastObj := st.prevObj, prevObj := currObj }
 
 def rhythmStep (objs : List (DiffObj R)) (curr : DiffObj R) (hnc : Nat) (eps hitWindow : R)
@@ -551,6 +560,21 @@ def rhythmStep (objs : List (DiffObj R)) (curr : DiffObj R) (hnc : Nat) (eps hit
     | none => { st with broke := true }
     | some currObj => rhythmStepWith curr hnc eps hitWindow st i currObj
 
+/-- `if let Some((prev_obj, last_obj)) = previous(rhythm_start).zip(previous(rhythm_start + 1)) { for … }`:
+the loop's final state when it ran -/
+def rhythmLoop (objs : List (DiffObj R)) (curr : DiffObj R) (hnc : Nat) (eps hitWindow : R) (rhythmStart : Nat) :
+    Option (RhState R) :=
+  match previous objs curr rhythmStart, previous objs curr (rhythmStart + 1) with
+  | some prevObj, some lastObj =>
+    let st0 : RhState R :=
+      { sum := 0.0, island := Island.new, prevIsland := Island.new, counts := [], startRatio := 0.0,
+        firstDeltaSwitch := false, prevObj := prevObj, lastObj := lastObj, broke := false, underflow := false }
+    some (((List.range rhythmStart).reverse.map (· + 1)).foldl (rhythmStep objs curr hnc eps hitWindow) st0)
+  | _, _ => none
+
+/-- `rhythm_complexity_sum` -/
+def rhythmSumOf (final : Option (RhState R)) : R := match final with | some st => st.sum | none => 0.0
+
 /-- `RhythmEvaluator::evaluate_diff_of`: `(rhythm value, the loop's final state when it ran)` -/
 def rhythmEvaluateFull (objs : List (DiffObj R)) (curr : DiffObj R) (hitWindow : R) : R × Option (RhState R) :=
   if curr.base.isSpinner then (0.0, none)
@@ -559,15 +583,8 @@ def rhythmEvaluateFull (objs : List (DiffObj R)) (curr : DiffObj R) (hitWindow :
     let historicalNoteCount := min curr.idx 32
     let rhythmStart := rhythmStartSearch objs curr historicalNoteCount historicalNoteCount 0
     let final : Option (RhState R) :=
-      match previous objs curr rhythmStart, previous objs curr (rhythmStart + 1) with
-      | some prevObj, some lastObj =>
-        let st0 : RhState R :=
-          { sum := 0.0, island := Island.new, prevIsland := Island.new, counts := [], startRatio := 0.0,
-            firstDeltaSwitch := false, prevObj := prevObj, lastObj := lastObj, broke := false, underflow := false }
-        some (((List.range rhythmStart).reverse.map (· + 1)).foldl
-          (rhythmStep objs curr historicalNoteCount deltaDifferenceEps hitWindow) st0)
-      | _, _ => none
-    let rhythmComplexitySum : R := match final with | some st => st.sum | none => 0.0
+      rhythmLoop objs curr historicalNoteCount deltaDifferenceEps hitWindow rhythmStart
+    let rhythmComplexitySum : R := rhythmSumOf final
     (sqrt (4.0 + rhythmComplexitySum * 0.95) / 2.0, final)
 
 def rhythmEvaluate (objs : List (DiffObj R)) (curr : DiffObj R) (hitWindow : R) : R :=
